@@ -320,20 +320,6 @@ Proof. exact (lm_run_spec ss []). Qed.
     serialisation of a prefix of the appended records, the buffer holds the rest *)
 Definition whole (bytes : list N) (rs : list lrec_full) : Prop := bytes = concat (map ser_rec rs).
 
-Lemma lm_flush_if_whole c buf done pend :
-  whole buf pend ->
-  exists done' pend', done ++ pend = done' ++ pend' /\
-    whole (payloads (snd (lm_flush_if c buf))) (skipn (length done) done') /\
-    firstn (length done) done' = done /\
-    whole (fst (lm_flush_if c buf)) pend'.
-Proof.
-  intros H. unfold lm_flush_if. destruct c; cbn [fst snd].
-  - exists (done ++ pend), []. rewrite app_nil_r. split; [reflexivity|].
-    rewrite skipn_app_exact, firstn_app_exact by reflexivity.
-    cbn. rewrite app_nil_r. repeat split; auto.
-  - exists done, pend. split; [reflexivity|]. rewrite skipn_all, firstn_all. repeat split; auto.
-Qed.
-
 Lemma concat_map_app (a b : list lrec_full) :
   concat (map ser_rec (a ++ b)) = concat (map ser_rec a) ++ concat (map ser_rec b).
 Proof. rewrite map_app, concat_app. reflexivity. Qed.
@@ -404,3 +390,99 @@ Proof.
   exists d, p. split; [exact E|]. rewrite W. apply roundtrip.
   rewrite E in H. apply Forall_app in H. tauto.
 Qed.
+
+(** * Completeness: the checker rejects only traces that violate the declarative discipline *)
+
+Lemma lsns_incr_tail x l : lsns_increasing (x :: l) -> lsns_increasing l.
+Proof.
+  intros H i j ri rj Hij Hi Hj Li Lj.
+  apply (H (S i) (S j) ri rj); auto. lia.
+Qed.
+
+Lemma lsns_incr_ok l : forall last,
+  (forall n r, last = Some n -> In r l -> has_lsn (l_kind r) = true -> n < l_lsn r) ->
+  lsns_increasing l -> lsns_ok_from last l = true.
+Proof.
+  induction l as [|x l IH]; intros last Hlow Hinc; [reflexivity|].
+  cbn [lsns_ok_from]. destruct (has_lsn (l_kind x)) eqn:Lx.
+  - apply andb_true_intro. split.
+    + destruct last as [n|]; [|reflexivity].
+      specialize (Hlow n x eq_refl (or_introl eq_refl) Lx). lia.
+    + apply IH; [|eapply lsns_incr_tail; eauto].
+      intros n r E Hin Lr. inversion E; subst n.
+      destruct (In_nth_error _ _ Hin) as [j Hj].
+      apply (Hinc O (S j) x r); auto. lia.
+  - apply IH; [|eapply lsns_incr_tail; eauto].
+    intros n r E Hin Lr. apply (Hlow n r E); auto. right; exact Hin.
+Qed.
+
+Lemma chains_intact_ok l : chains_intact l -> chains_ok l = true.
+Proof.
+  induction l as [|r l IH] using rev_ind; intros H; [reflexivity|].
+  unfold chains_ok in *. rewrite chains_ok_from_app. apply andb_true_intro. split.
+  - apply IH. intros a r0 b E L. apply (H a r0 (b ++ [r])); [|exact L].
+    rewrite E. rewrite <- app_assoc. reflexivity.
+  - cbn [chains_ok_from]. destruct (has_lsn (l_kind r)) eqn:L; [|reflexivity].
+    rewrite andb_true_r. rewrite aget_lastof_after. cbn [aget].
+    change (prev_from None l (l_txn r)) with (prev_of l (l_txn r)).
+    rewrite (H l r [] eq_refl L).
+    destruct (prev_of l (l_txn r)); [apply N.eqb_refl | reflexivity].
+Qed.
+
+Lemma wf_winv_parts pre : log_wellformed pre ->
+  durable_left pre = [] /\ lsns_ok_from None (durable_log pre) = true /\ chains_ok (durable_log pre) = true.
+Proof.
+  intros (H1 & H2 & H3). split; [exact H1|]. split.
+  - apply lsns_incr_ok; [intros; discriminate | exact H2].
+  - apply chains_intact_ok; exact H3.
+Qed.
+
+Lemma wstep_complete pre s e : winv pre s -> log_wellformed (pre ++ [e]) -> event_ok pre e ->
+  exists s', wstep s e = inl s'.
+Proof.
+  intros (I1 & I2 & I3 & I4 & I5 & I6 & I7) Hwf Hev.
+  destruct (wf_winv_parts _ Hwf) as (W1 & W2 & W3).
+  destruct e as [b|pid plsn| |t]; cbn [wstep event_ok] in *.
+  - destruct (durable_log_tlog pre b I1) as [EL ER]. rewrite EL in W2, W3. rewrite ER in W1.
+    destruct (parse_all b) as [rs left]. cbn [fst snd] in *. subst left.
+    rewrite lsns_ok_from_app in W2. apply andb_prop in W2. destruct W2 as [_ W2].
+    unfold chains_ok in W3. rewrite chains_ok_from_app in W3. apply andb_prop in W3. destruct W3 as [_ W3].
+    rewrite <- I4 in W2. rewrite <- I5 in W3. rewrite W2, W3. cbn [negb]. eauto.
+  - destruct (memN pid (w_tracked s)) eqn:C; cbn [andb]; [|eauto].
+    apply wt_memN_In in C. rewrite I6 in C. specialize (Hev C).
+    rewrite max_lsn_last in Hev by exact I2. rewrite <- I4 in Hev.
+    unfold w_max. unfold optval in Hev.
+    destruct (N.leb_spec plsn match w_last s with Some n => n | None => 0 end); cbn [negb]; [eauto|lia].
+  - eauto.
+  - destruct Hev as (r & Hin & Ht & Hk).
+    assert (C : memN t (w_commits s) = true).
+    { apply wt_memN_In. rewrite I7. apply commits_of_In. eauto. }
+    rewrite C. eauto.
+Qed.
+
+Lemma wrun_complete tr : forall pre s idx, winv pre s ->
+  (forall p q, tr = p ++ q -> log_wellformed (pre ++ p) /\ (forall e q', q = e :: q' -> event_ok (pre ++ p) e)) ->
+  wrun s tr idx = None.
+Proof.
+  induction tr as [|e tr IH]; intros pre s idx I H; [reflexivity|].
+  cbn [wrun].
+  destruct (H [] (e :: tr) eq_refl) as [_ Hev]. rewrite app_nil_r in Hev. specialize (Hev e tr eq_refl).
+  destruct (H [e] tr eq_refl) as [Hwf _].
+  destruct (wstep_complete pre s e I Hwf Hev) as [s' ES]. rewrite ES.
+  destruct (wstep_sound _ _ _ _ I ES) as [_ I'].
+  apply (IH (pre ++ [e]) s' (idx + 1) I').
+  intros p q E. subst tr. rewrite <- app_assoc. apply (H (e :: p) q). reflexivity.
+Qed.
+
+Lemma wal_ok_complete_lemma tr :
+  (forall p q, tr = p ++ q -> log_wellformed p /\ (forall e q', q = e :: q' -> event_ok p e)) ->
+  wal_ok tr = true.
+Proof.
+  intros H. unfold wal_ok, wal_violation.
+  rewrite (wrun_complete tr [] w0 0 winv_init); [reflexivity|]. exact H.
+Qed.
+
+Lemma wal_ok_iff_lemma tr :
+  wal_ok tr = true <->
+  (forall p q, tr = p ++ q -> log_wellformed p /\ (forall e q', q = e :: q' -> event_ok p e)).
+Proof. split; [apply wal_ok_all | apply wal_ok_complete_lemma]. Qed.
